@@ -131,9 +131,6 @@ impl AsyncRead for MockRead {
             w.read_waker = Some(cx.waker().clone());
             return Poll::Pending;
         }
-        if let Some(k) = w.read_err_once.take() {
-            return Poll::Ready(Err(io::Error::new(k, "mock (transient)")));
-        }
         if let Some(front) = w.staged.front_mut() {
             let n = front.len().min(buf.len());
             buf[..n].copy_from_slice(&front[..n]);
@@ -144,6 +141,10 @@ impl AsyncRead for MockRead {
             }
             w.bytes_read += n as u64;
             return Poll::Ready(Ok(n));
+        }
+        if let Some(k) = w.read_err_once.take() {
+            // (after whatever had been staged before it, like the permanent faults)
+            return Poll::Ready(Err(io::Error::new(k, "mock (transient)")));
         }
         if w.read_err {
             w.eof_reported = true;
